@@ -468,6 +468,29 @@ fn cmd_check(args: &Args) -> i32 {
         }
     };
 
+    // thorough tier: a third configuration (built with -C target-cpu=native) runs the quick tier's worth of seeds
+    let mut third: Option<J> = None;
+    if let Some(tb) = args.get("third-bin") {
+        let out3 = scratch.join(format!("{}-{}-native-{}.json", prop, tier, std::process::id()));
+        let n3 = runs.min(4_000_000);
+        match spawn_run(Path::new(tb), &prop, &root, "native", seed, n3, workers, &out3, None) {
+            Ok((code, j, stdout)) => {
+                for l in stdout.lines() {
+                    if l.starts_with("VIOLATION ") || l.starts_with("  class=") || l.starts_with("KNOWN-FINDING") {
+                        println!("{}", l);
+                    }
+                }
+                for e in j.get("harness_errors").and_then(|x| x.as_arr()).unwrap_or(&[]) {
+                    harness_errors.push(format!("native: {}", e.as_str().unwrap_or("")));
+                }
+                exit = exit.max(code);
+                third = Some(j);
+            }
+            Err(e) => harness_errors.push(e),
+        }
+        let _ = std::fs::remove_file(&out3);
+    }
+
     // same seeds, same observations: the two batch digests must agree when neither profile failed
     let d1 = primary.json.get("seeded_digest").and_then(|x| x.as_u64());
     let dd1 = primary.json.get("directed_digest").and_then(|x| x.as_u64());
@@ -573,6 +596,20 @@ fn cmd_check(args: &Args) -> i32 {
                 .with("seeded_digest", s.get("seeded_digest").cloned().unwrap_or(J::Null))
                 .with("directed_digest", s.get("directed_digest").cloned().unwrap_or(J::Null))
                 .with("wall_s", s.get("wall_s").cloned().unwrap_or(J::Null)),
+        );
+    }
+    if let Some(t) = &third {
+        evaluations += g(t, "seeded_runs") + g(t, "directed_runs");
+        steps_total += g(t, "seeded_steps") + g(t, "directed_steps");
+        inv += g(t, "invariant_evaluations");
+        profiles.push(
+            J::obj()
+                .with("profile", J::str("native: the simfast profile built with RUSTFLAGS=-C target-cpu=native (code under cfg(target_feature) is live); thorough tier only"))
+                .with("seeded_runs", J::u(g(t, "seeded_runs")))
+                .with("directed_runs", J::u(g(t, "directed_runs")))
+                .with("seeded_digest", t.get("seeded_digest").cloned().unwrap_or(J::Null))
+                .with("directed_digest", t.get("directed_digest").cloned().unwrap_or(J::Null))
+                .with("wall_s", t.get("wall_s").cloned().unwrap_or(J::Null)),
         );
     }
     let wall = t0.elapsed().as_secs_f64();
